@@ -180,12 +180,12 @@ FromRepr(T, r) ==
                    ELSE finish([j \in DOMAIN T.fs |->
                           IF Has(r.ks, Serial(T, j))
                             THEN FromReprElem(T.fs[j].ty, T.fs[j].nul, r.vs[IndexOf(r.ks, Serial(T, j))])
-                            ELSE (IF T.fs[j].opt THEN Res(TRUE, AbsentV) ELSE BadW("missing_required"))])
+                            ELSE (IF T.fs[j].opt THEN Res(TRUE, AbsentV) ELSE BadW("missing_required:map"))])
               [] T.repr.r = "tuple" ->
                    IF r.k # "list" THEN BadW("wrong_kind") ELSE IF Len(r.vs) > Len(T.fs) THEN BadW("tuple_too_long")
                    ELSE finish([j \in DOMAIN T.fs |->
                           IF j <= Len(r.vs) THEN FromReprElem(T.fs[j].ty, T.fs[j].nul, r.vs[j])
-                          ELSE (IF T.fs[j].opt THEN Res(TRUE, AbsentV) ELSE BadW("missing_required"))])
+                          ELSE (IF T.fs[j].opt THEN Res(TRUE, AbsentV) ELSE BadW("missing_required:tuple"))])
               [] T.repr.r = "listpairs" ->
                    IF r.k # "list" THEN BadW("wrong_kind")
                    ELSE IF \E i \in DOMAIN r.vs : ~(r.vs[i].k = "list" /\ Len(r.vs[i].vs) = 2 /\ r.vs[i].vs[1].k = "string") THEN BadW("listpairs_shape")
@@ -194,7 +194,7 @@ FromRepr(T, r) ==
                            ELSE finish([j \in DOMAIN T.fs |->
                                   IF Has(ks, names[j])
                                     THEN FromReprElem(T.fs[j].ty, T.fs[j].nul, r.vs[IndexOf(ks, names[j])].vs[2])
-                                    ELSE (IF T.fs[j].opt THEN Res(TRUE, AbsentV) ELSE BadW("missing_required"))])
+                                    ELSE (IF T.fs[j].opt THEN Res(TRUE, AbsentV) ELSE BadW("missing_required:listpairs"))])
               [] T.repr.r = "stringjoin" ->
                    IF r.k # "string" THEN BadW("wrong_kind")
                    ELSE LET parts == Split(r.a, T.repr.d)
